@@ -162,8 +162,24 @@ func (g *localfsEngine) localfsJudge(world string, c *localfsCase, obs []localfs
 	dir := c.Dir
 	expected := map[string]string{} // key hex -> sha of the content the contract says is stored ("" = none/unknown)
 	known := map[string]bool{}
+	// directory entries created by a call that was KILLED and whose directory has not been fsynced since
+	unsyncedByKill := map[string]bool{}
 	for i, op := range c.Ops {
 		o := obs[i]
+		for _, e := range o.Events {
+			switch {
+			case e.Kind == "fsyncdir":
+				for q := range unsyncedByKill {
+					if localfsParent(q) == e.Path {
+						delete(unsyncedByKill, q)
+					}
+				}
+			case o.Killed && e.Kind == "mkdir":
+				unsyncedByKill[e.Path] = true
+			case o.Killed && e.Kind == "rename" && e.A == 1:
+				unsyncedByKill[e.Dst] = true
+			}
+		}
 		key := localfsKeyBytes(op.Key)
 		desc := fmt.Sprintf("op %d %s key=%q", i, op.Op, key)
 		if !o.Began {
@@ -287,17 +303,21 @@ func (g *localfsEngine) localfsJudge(world string, c *localfsCase, obs []localfs
 					}
 				}
 			}
-			if op.Durable && cls == "ok" && !wrote {
-				// the directory entry of this object is known NOT to be synced (it stems from an
-				// upload killed between rename and the fsync of the parent)
-				synced := false
+			if cls == "ok" {
+				// the object this call made or found: target of its rename, else the file it opened to compare
+				obj := ""
 				for _, e := range o.Events {
-					if e.Kind == "fsyncdir" {
-						synced = true
+					if e.Kind == "rename" && e.A == 1 {
+						obj = e.Dst
+					} else if e.Kind == "openrd" && e.A == 1 && obj == "" {
+						obj = e.Path
 					}
 				}
-				if !synced {
-					g.fail(c, "reupload-no-fsync-after-killed-upload", desc+": the object's directory entry was created by an upload that was killed before it fsynced the directory; this Upload returned nil without any fsync, so a returned upload does not survive power loss")
+				for q := obj; q != "" && q != dir && localfsInside(dir, q); q = localfsParent(q) {
+					if unsyncedByKill[q] {
+						g.fail(c, "reupload-no-fsync-after-killed-upload", fmt.Sprintf("%s returned nil, but the directory entry %q on the way to the object was created by an earlier upload that was killed before it fsynced the directory %q, and nothing has fsynced that directory since (wrote=%v): a returned upload does not survive power loss", desc, q, localfsParent(q), wrote))
+						break
+					}
 				}
 			}
 			// ---- contract: what is stored afterwards
@@ -848,7 +868,9 @@ func localfsFamilyImm(r *Rand, tier string) []*localfsCase {
 		if n > 0 {
 			up(localfsContent{Seed: seed, Len: n + 16384, Flip: -1}, "fail-unchanged")
 		}
-		up(base, "ok") // still the same object
+		if n > 0 {
+			up(base, "ok") // still the same object
+		}
 		c.Ops = append(c.Ops, localfsOp{Op: "fetch", Key: kh})
 		cs = append(cs, c)
 	}
@@ -913,7 +935,7 @@ func localfsFamilyKill(r *Rand, tier string) []*localfsCase {
 				Prep: []localfsPrep{{Kind: "mkdir", Path: "root/tile"}},
 				Ops: []localfsOp{
 					{Op: "upload", Key: kh, Data: d, Imm: imm, Kill: kill},
-					{Op: "upload", Key: kh, Data: d, Imm: imm, Expect: "ok", Durable: kill == 2},
+					{Op: "upload", Key: kh, Data: d, Imm: imm, Expect: "ok"},
 					{Op: "fetch", Key: kh},
 				}}
 			cs = append(cs, c)
